@@ -23,6 +23,10 @@ func (t *T) PLog(tag string, v int) { obs("pm", t.id, tag, v) }
 
 func logd(id int, v int) { obs("d", id, v) }
 
+func logp(id int, p *T)              { obs("dp", id, p.id) }
+func logs(id int, s []int)           { obs("ds", id, len(s), s[0]) }
+func logm(id int, m map[string]int)  { obs("dmp", id, len(m), m["a"]) }
+
 func helperRecover(id int) {
 	r := recover() // not called directly by the deferred function: must return nil
 	obs("helper", id, r == nil)
@@ -104,7 +108,20 @@ func (g *c06gen) panicStmt() string {
 func (g *c06gen) deferStmt() string {
 	r := g.rg
 	id := g.id()
-	switch r.Intn(16) {
+	switch r.Intn(20) {
+	case 16:
+		// reference-like arguments are fixed by the defer statement too: the variable is reassigned afterwards
+		g.tags["defer-ptr-arg-reassigned"] = true
+		return fmt.Sprintf("p%d := &T{%d}\n\tdefer logp(%d, p%d)\n\tp%d = &T{%d}", id, id, id, id, id, id+5000)
+	case 17:
+		g.tags["defer-slice-arg-reassigned"] = true
+		return fmt.Sprintf("s%d := []int{x, 1}\n\tdefer logs(%d, s%d)\n\ts%d = []int{-9, -9, -9}", id, id, id, id)
+	case 18:
+		g.tags["defer-map-arg-reassigned"] = true
+		return fmt.Sprintf("mm%d := map[string]int{\"a\": x}\n\tdefer logm(%d, mm%d)\n\tdefer delete(mm%d, \"b\")\n\tmm%d = map[string]int{\"a\": -1, \"b\": -2, \"c\": -3}\n\tdefer func() { obs(\"dmq\", %d, len(mm%d)) }()", id, id, id, id, id, id, id)
+	case 19:
+		g.tags["defer-chan-arg-reassigned"] = true
+		return fmt.Sprintf("c%d := make(chan int, 1)\n\told%d := c%d\n\tdefer func() {\n\t\tselect {\n\t\tcase _, ok := <-old%d:\n\t\t\tobs(\"dc\", %d, \"closed\", !ok, cap(c%d))\n\t\tdefault:\n\t\t\tobs(\"dc\", %d, \"open\", cap(c%d))\n\t\t}\n\t}()\n\tdefer close(c%d)\n\tc%d = make(chan int, 2)", id, id, id, id, id, id, id, id, id, id)
 	case 13:
 		g.tags["defer-hostfunc"] = true
 		return fmt.Sprintf("defer fmt.Println(\"#\"+curCell, \"dh\", %d, x, res)\n\tx += 3", id)
@@ -206,7 +223,7 @@ const c06Cells = 12
 func init() { checks["C06"] = checkC06 }
 
 func checkC06(r *core.Run) {
-	r.Rule = "universe = 12000 generated programs x 12 cells; a cell is a call tree (depth up to 4) whose functions defer function literals, named functions with arguments mutated afterwards, value and pointer method values, defers in loops, builtin defers, direct/helper/nested recover, re-panics, and raise explicit panics (string, struct, error) or run-time faults (nil dereference, index, slice, integer division by zero, nil map write, failed type assertion, close of closed channel), with named results altered after recover; each deferred call logs a unique id. verdict per cell = the log equals the gc binary's (run-time faults are compared by class, not message). A second family evaluates uncaught panics interactive-style: Eval must return interp.Panic carrying the original value, nothing may escape as a Go panic, and the interpreter must stay usable"
+	r.Rule = "universe = 12000 generated programs x 12 cells; a cell is a call tree (depth up to 4) whose functions defer function literals, named functions with arguments mutated afterwards (scalars, and pointer / slice / map / channel variables reassigned after the defer statement), value and pointer method values, defers in loops, builtin defers, direct/helper/nested recover, re-panics, and raise explicit panics (string, struct, error) or run-time faults (nil dereference, index, slice, integer division by zero, nil map write, failed type assertion, close of closed channel), with named results altered after recover; each deferred call logs a unique id. verdict per cell = the log equals the gc binary's (run-time faults are compared by class, not message). A second family evaluates uncaught panics interactive-style: Eval must return interp.Panic carrying the original value, nothing may escape as a Go panic, and the interpreter must stay usable"
 	r.Assume = []string{"gc build of the same source is the reference for the logs", "messages of run-time faults are not compared (reflect-based wording is not promised)"}
 	n := 60
 	if r.Thorough() {
